@@ -119,6 +119,11 @@ TREES = [
     ("tree-leaf", lambda: Tree("only"), 4),
     ("table-ratio-expand", lambda: (lambda t: (t.add_column("k", ratio=1), t.add_column("v", ratio=30), t.add_row("kabcde", ASCII), t)[3])(
         Table(expand=True, box=box.ASCII2)), 3 + 2 * 3),
+    # guide styles: every combination of the two attributes that select a guide set, directly and inherited
+    ("tree-guide-bold-underline2", lambda: (lambda t: (t.add("a", guide_style="underline2").add("b"), t.add("c"), t)[2])(
+        Tree("root", guide_style="bold underline2")), 8 + 1),
+    ("tree-guide-inherited", lambda: (lambda t: (t.add("a", guide_style="underline2").add("b").add("c"), t)[1])(
+        Tree("root", guide_style="bold", style="italic")), 12 + 1),
 ]
 NAMES = [n for n, _, _ in TREES]
 
